@@ -255,22 +255,23 @@ class COO(SparseArray, NDArrayOperatorsMixin):  # lgtm [py/missing-equals]
             self.coords = np.zeros((len(shape) if isinstance(shape, Iterable) else 1, 0), dtype=np.intp)
         super().__init__(shape, fill_value=fill_value)
         if idx_dtype:
-            if not can_store(idx_dtype, max(shape)):
+            if not can_store(idx_dtype, max(shape, default=0)):
                 raise ValueError(f"cannot cast array with shape {shape} to dtype {idx_dtype}.")
             self.coords = self.coords.astype(idx_dtype)
         self.coords = _index_array(self.coords)
 
-        if self.shape:
-            if len(self.data) != self.coords.shape[1]:
-                msg = "The data length does not match the coordinates given.\nlen(data) = {}, but {} coords specified."
-                raise ValueError(msg.format(len(data), self.coords.shape[1]))
-            if len(self.shape) != self.coords.shape[0]:
-                msg = (
-                    "Shape specified by `shape` doesn't match the "
-                    "shape of `coords`; len(shape)={} != coords.shape[0]={}"
-                    "(and coords.shape={})"
-                )
-                raise ValueError(msg.format(len(shape), self.coords.shape[0], self.coords.shape))
+        if self.coords.ndim != 2:
+            raise ValueError(f"`coords` must be 2-dimensional, but coords.shape={self.coords.shape}")
+        if len(self.data) != self.coords.shape[1]:
+            msg = "The data length does not match the coordinates given.\nlen(data) = {}, but {} coords specified."
+            raise ValueError(msg.format(len(self.data), self.coords.shape[1]))
+        if len(self.shape) != self.coords.shape[0]:
+            msg = (
+                "Shape specified by `shape` doesn't match the "
+                "shape of `coords`; len(shape)={} != coords.shape[0]={}"
+                "(and coords.shape={})"
+            )
+            raise ValueError(msg.format(len(self.shape), self.coords.shape[0], self.coords.shape))
 
         from .._settings import WARN_ON_TOO_DENSE
 
